@@ -34,12 +34,20 @@ Byte-level judges (real SHA-256 tagged hashes, Spec/Bip341.lean; Spec/Bech32m.le
         the (script, control block) pair that `Tr::get_satisfaction` chose for the witness commits to
         the tree's root (BIP341 script-path computation), with the right key and parity bit
   J trleafpk <key hex (33 or 32 bytes)> <script hex>   tapscript of `pk(K)` is `<x-only K> OP_CHECKSIG`
+  J trleafscript <template> <key hex,…> <script hex>   tapscript of pk / multi_a:k / sortedmulti_a:k /
+        pkh_older:n over 33- or 32-byte keys (Spec/TapTemplates.lean: x-only pushes, x-only sort, x-only hash)
+  J trwitnessmin <shape> <script hex,…> <chosen script> <chosen control block>   among the positions that
+        carry the chosen script, the chosen control block belongs to a shallowest one
+  C trtranslate <d0,d1,…> <acts>   Tr::translate_pk with a translator whose j-th call keeps (k), fails (f)
+        or returns an uncompressed key (u); acts has one letter per leaf, then one for the internal
+        key: `ok:<d:id,…>` / `translator-err` / `outer-err`
   J trdepthlimit <shape> <combine verdict> <parse verdict>   accept iff height <= 128, else ERR; never PANIC
 -/
 import MsVerif.Model.TapTree
 import MsVerif.Lemmas.TapTreeBip341
 import MsVerif.Spec.Bech32m
 import MsVerif.Spec.Outputs
+import MsVerif.Spec.TapTemplates
 
 namespace MsVerif.Driver
 open MsVerif.Spec MsVerif.Tap
@@ -232,6 +240,16 @@ def trLeafPkJudge (key script : Hash.Bytes) : String :=
   | none => "bad:key"
   | some x => okbadT (script == [0x20] ++ x ++ [0xac])
 
+/-- one translator call: keep / fail / hand back a key the Tapscript context refuses -/
+def actOf (c : Char) (x : Nat) : Option (Except TrErr Nat) :=
+  if c == 'k' then some (.ok x) else if c == 'f' then some (.error .translator)
+  else if c == 'u' then some (.error .outer) else none
+
+/-- positions of a (relabelled) tree carrying `script`, with their depths -/
+def minDepthOf (t : Tree Hash.Bytes) (script : Hash.Bytes) : Option Nat :=
+  ((Tree.depths t).filter (fun p => p.2 == script)).foldl
+    (fun m p => match m with | none => some p.1 | some d => some (min d p.1)) none
+
 def limitVerdict (t : Tree Nat) : String := if Tree.height t ≤ maxDepth then "accept" else "ERR"
 
 def opsTap (kind op : String) (args : List String) : Option String :=
@@ -289,6 +307,32 @@ def opsTap (kind op : String) (args : List String) : Option String :=
       else if c.internalKey != ik then pure "bad:internal-key"
       else if Bip341.committedRoot c script != root then pure "bad:commitment"
       else pure "ok"
+  | "J", "trleafscript", [tmpl, keys, script] => do
+    let keys ← tapHexList keys; let script ← Hash.ofHex script
+    match TapTemplates.script tmpl keys with
+    | none => pure "bad:template"
+    | some want => pure (okbadT (want == script))
+  | "J", "trwitnessmin", [shape, scripts, script, cb] => do
+    let t ← parseShape shape; let scripts ← tapHexList scripts
+    let script ← Hash.ofHex script; let cb ← Hash.ofHex cb
+    match relabel t scripts, Bip341.parseControlBlock cb with
+    | some (tree, []), some c =>
+      match minDepthOf tree script with
+      | none => pure "bad:not-a-leaf"
+      | some d => pure (if c.path.length == d then "ok" else s!"bad:not-shortest:{c.path.length}>{d}")
+    | _, _ => pure "bad:format"
+  | "C", "trtranslate", [ds, acts] => do
+    let ds ← parseDepths ds
+    let acts := acts.toList
+    if acts.length != ds.length + 1 then none else
+    let leafActs ← (acts.take ds.length).zipIdx.mapM (fun (c, i) => actOf c i)
+    let ikAct ← actOf (acts.getD ds.length 'k') 0
+    let tree : TapTree Nat := withIds ds 0
+    pure (match trTranslate (fun (i : Nat) => leafActs.getD i (.ok i)) (fun (_ : Nat) => ikAct) 0 (some tree) with
+      | .ok (_, some t) => "ok:" ++ showDepths t
+      | .ok (_, none) => "ok:-"
+      | .error .translator => "translator-err"
+      | .error .outer => "outer-err")
   | "J", "trleafpk", [key, script] => do
     let key ← Hash.ofHex key; let script ← Hash.ofHex script
     pure (trLeafPkJudge key script)
